@@ -292,6 +292,44 @@ def identity_sentinel_defaults(ctx):
     ctx.case({"directed": "identity-sentinel-defaults"}, True)
 
 
+def sibling_bound_graphs(ctx):
+    """Several graphs derived with bind() from ONE ancestor (siblings and a chain) exist before any of them is used; each
+    is then run, in several orders, and must evaluate with exactly its own bindings (other arguments from run-time
+    values and signature defaults) - whatever its relatives were given."""
+    import itertools
+
+    spec = {"name": "sb", "nodes": [
+        {"k": "fn", "name": "f", "params": [{"n": "x"}, {"n": "k"}], "outs": ["y"]},
+        {"k": "fn", "name": "g", "params": [{"n": "y"}, {"n": "j", "d": "def:j"}], "outs": ["z"]},
+    ], "bind": {}}
+    binds = {"g1": {"k": "b1:k"}, "g2": {"k": "b2:k", "j": "b2:j"}, "g3": {"k": "b1:k", "j": "b3:j"}, "base": {}}
+    orders = list(itertools.permutations(["g1", "g2", "g3", "base"]))
+    for order in [orders[0], orders[5], orders[9], orders[14], orders[23]]:
+        for runner in ("sync", "async"):
+            rt.reset_program()
+            from hgmon.build import build_program
+
+            built = build_program(spec)
+            base = built.graph
+            fam = {"base": base}
+            fam["g1"] = base.bind(k="b1:k")
+            fam["g2"] = base.bind(k="b2:k", j="b2:j")
+            fam["g3"] = fam["g1"].bind(j="b3:j")  # a chain: derived from g1 before g1 was ever used
+            for name in order:
+                sp = {**spec, "bind": dict(binds[name])}
+                provided = {"x": "run:x"} if name != "base" else {"x": "run:x", "k": "run:k"}
+                R = ref.ref_eval(sp, provided)
+                exp = ref.visible_values(sp, R)
+                built.graph = fam[name]
+                o = core.execute(built, provided, runner, keep_program=True, warm=False)
+                ctx.obs["sibling_bound_graph_runs"] += 1
+                ctx.obs["values_compared"] += len(exp)
+                if o.exc is not None or o.values != exp:
+                    ctx.violation("C01:values:wrong:sibling-bound-graphs", f"{runner}: {name} (bindings {binds[name]}) run in order {list(order)}: {o.status} {o.exc!r} {core.short(o.values, 300)}; dependency-order evaluation with its own bindings gives {core.short(exp, 300)}", {"spec": spec, "order": list(order), "graph": name, "runner": runner})
+                    break
+    ctx.case({"directed": "sibling-bound-graphs"}, True)
+
+
 def run(ctx):
     n = 450 if ctx.tier == "quick" else 9000
     if ctx.replay:
@@ -308,6 +346,7 @@ def run(ctx):
         equal_but_different(ctx)
         shared_equal_defaults(ctx)
         identity_sentinel_defaults(ctx)
+        sibling_bound_graphs(ctx)
         # directed: a nested graph with its own binding that the selection does not need but that can still run
         for sel_kind in ("graph", "runtime"):
             for sel in (["p"], ["p", "m"]):
